@@ -1,5 +1,6 @@
 #!/usr/bin/env bash
-# ingest every sub-agent output not yet ingested
-for d in /tmp/wt/C??; do id=$(basename $d); for k in 1 2 3; do
-  if [ -f $d/out/patch_$k.diff ] && [ ! -d /verif/seeded/${id}_$k ]; then echo "== $id $k"; /verif/tools/ingest_seeded.sh $id $k quick 2>&1 | grep -E "caught_by|target_property|demo_|existing_tests|patch_applies=NO"; fi
+# ingest every sub-agent output not yet ingested. Env: SEED_WT (default /tmp/wt), SEED_TAG (default empty, e.g. r2_)
+wt="${SEED_WT:-/tmp/wt}"; tag="${SEED_TAG:-}"
+for d in $wt/C??; do id=$(basename $d); for k in 1 2 3; do
+  if [ -f $d/out/patch_$k.diff ] && [ -f $d/out/meta_$k.json ] && [ ! -d /verif/seeded/${id}_${tag}$k ]; then echo "== $id $k"; /verif/tools/ingest_seeded.sh $id $k quick 2>&1 | grep -E "caught_by|target_property|patch_applies=NO"; fi
 done; done
